@@ -77,12 +77,12 @@ def gen_inputs(np, rng, E: int, M: int, n_rand: int, full_values: bool):
     return bits
 
 
-def oracle(np, ctx: Ctx, E: int, M: int, x_bits, y_bits, y2_bits) -> None:
+def oracle(np, ctx: Ctx, E: int, M: int, x_bits, y_bits, y2_bits, phase: str = "") -> None:
     """Value-level clauses of the property, evaluated exactly in float64."""
     c = fmt_consts(E, M)
     x = x_bits.view(np.float32).astype(np.float64)
     y = y_bits.view(np.float32).astype(np.float64)
-    key = {"E": E, "M": M}
+    key = {"E": E, "M": M, "phase": phase} if phase else {"E": E, "M": M}
     ax = np.minimum(np.abs(x), c["absmax"])  # range-clamped magnitude (inf -> absmax)
     ay = np.abs(y)
     with np.errstate(divide="ignore", invalid="ignore"):
@@ -149,7 +149,9 @@ def run(ctx: Ctx) -> None:
     ctx.rule = ("all 168 formats E in 2..8, M in 0..23; per format: every representable value (all, or a sample + binade "
                 "extremes when > 2^15), every midpoint, their +-4-ulp float32 neighbours, random mantissas per float32 "
                 "exponent, +-0, +-inf, saturation edges, both signs; thorough adds all 2^32 patterns for E4M3 and E5M2 via "
-                "block checksums. distinct = distinct (format, bit pattern).")
+                "block checksums; after that, other library entry points are used (simulate_fp8, simulate_format, unit_scale, "
+                "track_scales, an optimizer step) and every format is swept again on a reduced input set. "
+                "distinct = distinct (format, bit pattern).")
     formats = [(E, M) for E in range(2, 9) for M in range(0, 24)]
     total = 0
     model_jobs: List[Tuple[int, int, Any, Any]] = []
@@ -166,17 +168,47 @@ def run(ctx: Ctx) -> None:
             parts = list(ex.map(one, reqs))
         return np.concatenate(parts) if parts else np.zeros(0, dtype=np.uint32)
 
+    def library_history() -> None:
+        """Other entry points of the library, used the way a training script would use them before it quantises something:
+        the result of `quantise` is a function of the format and the input only, not of what ran earlier in the process."""
+        import unit_scaling as uu
+        from unit_scaling.transforms import simulate_format, simulate_fp8, track_scales, unit_scale
+        from unit_scaling.formats import format_to_tuple  # noqa: F401
+
+        class Net(torch.nn.Module):
+            def __init__(self) -> None:
+                super().__init__()
+                self.l1 = uu.Linear(8, 16)
+                self.l2 = uu.Linear(16, 8)
+
+            def forward(self, x):  # type: ignore[no-untyped-def]
+                return self.l2(uu.functional.gelu(self.l1(x)))
+
+        torch.manual_seed(0)
+        for tr in (simulate_fp8, lambda m: simulate_format(m, FPFormat(5, 2), FPFormat(4, 3)), unit_scale, track_scales):
+            net = tr(Net())
+            xx = torch.randn(4, 8, requires_grad=True)
+            net(xx).sum().backward()
+        opt = uu.optim.AdamW(Net().parameters(), lr=0.1)
+        opt.step()
+
     sample_bits = None
-    for (E, M) in formats:
+    for phase, (E, M) in [("fresh", fm) for fm in formats] + [("history", (0, 0))] + [("after-library-use", fm) for fm in formats]:
+        if phase == "history":
+            with ctx.guard("C13:library-history", {"phase": phase}):
+                library_history()
+            continue
+        later = phase != "fresh"
         f = FPFormat(E, M, "nearest")
         c = fmt_consts(E, M)
-        key = {"E": E, "M": M}
+        key = {"E": E, "M": M, "phase": phase} if later else {"E": E, "M": M}
         # range properties = extremes of the value set
         if not (f.max_absolute_value == c["absmax"] and f.min_absolute_normal == c["min_normal"]
                 and f.min_absolute_subnormal == c["min_sub"]):
             ctx.violation("C13:range-props", "max / min-normal / min-subnormal differ from the extremes of the value set", key,
                           [f.max_absolute_value, f.min_absolute_normal, f.min_absolute_subnormal])
-        bits = gen_inputs(np, rng, E, M, n_rand, full_values=not quick and (2 ** E) * (2 ** M) <= (1 << 20))
+        bits = gen_inputs(np, rng, E, M, 1 if later else n_rand,
+                          full_values=not later and not quick and (2 ** E) * (2 ** M) <= (1 << 20))
         x = torch.from_numpy(bits.view(np.float32).copy())
         x0 = x.clone()
         y = y2 = None
@@ -191,14 +223,14 @@ def run(ctx: Ctx) -> None:
             ctx.violation("C13:shape-dtype", "shape/dtype not preserved", key, [str(y.dtype), list(y.shape)])
             continue
         yb = y.numpy().view(np.uint32)
-        oracle(np, ctx, E, M, bits, yb, y2.numpy().view(np.uint32))
-        total += len(bits)
+        oracle(np, ctx, E, M, bits, yb, y2.numpy().view(np.uint32), phase if later else "")
+        total += 0 if later else len(bits)
         ctx.evaluations += len(bits)
-        ctx.bump(f"E{E}", len(bits))
+        ctx.bump(f"E{E}/after-library-use" if later else f"E{E}", len(bits))
         if sample_bits is None and len(bits) > 5:
             sample_bits = {"E": E, "M": M, "x_bits": int(bits[5])}
         # ---- correspondence with the Lean model: identical bit patterns (streamed per format)
-        if ctx.driver_ok:
+        if ctx.driver_ok and not later:
             mo = model_bits(E, M, bits)
             diff = np.nonzero(mo != yb)[0]
             if len(diff):
